@@ -96,6 +96,22 @@ Section RunFacts.
       + cbn [feed]. rewrite (IH (Dead k) I). reflexivity.
   Qed.
 
+  (* for a non-empty list of reads no condition on the starting state is needed
+     (the buffer may hold bytes that were never parsed) *)
+  Lemma feeds_cons_concat : forall c cs p,
+    feeds stage p (c :: cs) = feed stage p (c ++ concat cs).
+  Proof.
+    intros c cs p. cbn [feeds].
+    pose proof (feed_stuck p c) as Hst.
+    destruct p as [s b|k].
+    - cbn [feed] in *. rewrite app_assoc.
+      rewrite (run_app (Datatypes.S (length (b ++ c))) _ s (b ++ c) (concat cs)) by lia.
+      destruct (run stage (Datatypes.S (length (b ++ c))) s (b ++ c)) as [p' os].
+      cbn [fst] in Hst. rewrite (feeds_concat cs p' Hst).
+      destruct p' as [s' b'|k]; cbn [feed]; [reflexivity|rewrite app_nil_r; reflexivity].
+    - cbn [feed]. rewrite (feeds_concat cs (Dead k) I). reflexivity.
+  Qed.
+
   Corollary feeds_partition : forall cs1 cs2 p,
     stuck p -> concat cs1 = concat cs2 -> feeds stage p cs1 = feeds stage p cs2.
   Proof. intros. rewrite !feeds_concat by assumption. congruence. Qed.
